@@ -541,3 +541,34 @@ def rule_chunk_coord_in_grid(ctx):
                         ctx.violated("GRIDBOUND", key, f.where(line), "the chunk number is computed from the caller's `%s[]` with no comparison against num_chunks before it: a coordinate past the grid selects another chunk, whose data or location is then read, overwritten or reported" % v[1])
     ctx.floor("GRIDBOUND", 3, n, "(chunk numbers computed from a caller-supplied coordinate vector)")
     return n
+
+
+def rule_shared_seek_state_refreshed(ctx):
+    """SEEKIDX (C04): the chunk coordinates of "where the next byte is" (`seek_chunk_indices`, `seek_pos_chunk`) live in the
+    chunk information record, which every access id open on the element shares, while the byte position lives in each
+    access record.  A transfer routine of the chunked kind therefore recomputes them from its own `access_rec->posn`
+    (update_chunk_indices_seek) before it uses them; relying on what the last operation left behind lets a seek or read
+    through another access id redirect this one to a different chunk."""
+    prog = ctx.prog
+    n = 0
+    for name in ("HMCPread", "HMCPwrite"):
+        f = prog.func(name)
+        if f is None:
+            ctx.unrecognised("SEEKIDX", "SEEKIDX:%s" % name, "-", "%s not found" % name)
+            continue
+        n += 1
+        key = "SEEKIDX:%s" % name
+        first_use = None
+        refresh = None
+        for _b, _i, s, x in sorted(f.nodes(True), key=lambda t: t[2].get("l", 0)):
+            if x[0] == "call" and x[1] == "update_chunk_indices_seek" and x[3] and any(y[0] == "mem" and y[2] == "posn" for y in walk(x[3][0], True)):
+                if refresh is None:
+                    refresh = s.get("l", 0)
+            if x[0] == "call" and x[1] in ("calculate_chunk_num", "calculate_chunk_for_chunk", "compute_chunk_to_seek") and first_use is None:
+                first_use = s.get("l", 0)
+        if refresh is not None and (first_use is None or refresh <= first_use):
+            ctx.holds("SEEKIDX", key, f.where(refresh), "the shared chunk coordinates are recomputed from this access record's position before they are used", nontrivial=True)
+        else:
+            ctx.violated("SEEKIDX", key, f.where(first_use or f.line), "the shared chunk coordinates are used without being recomputed from access_rec->posn first: an operation through another access id on the same element decides which chunk this transfer touches")
+    ctx.floor("SEEKIDX", 2, n, "(transfer routines of the chunked kind)")
+    return n
